@@ -82,7 +82,7 @@ def check(run):
     g.no_allof = True
     gi = typegen.TypeGen(run.seed + 501)
     r = random.Random(run.seed + 502)
-    n_basic, n_struct, n_inter = (150, 500, 120) if quick else (2500, 9000, 2000)
+    n_basic, n_struct, n_inter = (150, 500, 120) if quick else (8000, 40000, 8000)
     cases = []
     for i in range(n_basic):
         a = basic_type(g)
